@@ -1,0 +1,73 @@
+//! Observation hooks for external verification tooling. Compiled only with the `verif` feature.
+//! Read-only: nothing here mutates the reactive graph.
+
+use slotmap::Key;
+
+use crate::{NodeHandle, NodeState, ReadSignal, Root};
+
+/// A raw snapshot of one live reactive node. Ids are the raw slot-map keys, so the lists may
+/// mention ids of nodes that no longer exist.
+#[derive(Debug, Clone)]
+pub struct NodeInfo {
+    /// Raw id of the node.
+    pub id: u64,
+    /// Raw id of the owner (`None` for a node without owner).
+    pub parent: Option<u64>,
+    /// Raw `children` list.
+    pub children: Vec<u64>,
+    /// Raw `dependencies` list.
+    pub dependencies: Vec<u64>,
+    /// Raw `dependents` list.
+    pub dependents: Vec<u64>,
+    /// Whether the node is marked dirty.
+    pub dirty: bool,
+    /// Whether the node has an update callback (memo / effect).
+    pub has_callback: bool,
+    /// Whether the node currently holds a value.
+    pub has_value: bool,
+    /// Number of registered cleanup callbacks.
+    pub cleanups: usize,
+    /// Number of context values.
+    pub contexts: usize,
+}
+
+/// Number of live reactive nodes in the current root.
+pub fn node_count() -> usize {
+    Root::global().nodes.borrow().len()
+}
+
+/// Snapshot of every live node of the current root.
+pub fn snapshot() -> Vec<NodeInfo> {
+    let root = Root::global();
+    let nodes = root.nodes.borrow();
+    nodes
+        .iter()
+        .map(|(id, n)| NodeInfo {
+            id: id.data().as_ffi(),
+            parent: (!n.parent.is_null()).then(|| n.parent.data().as_ffi()),
+            children: n.children.iter().map(|c| c.data().as_ffi()).collect(),
+            dependencies: n.dependencies.iter().map(|c| c.data().as_ffi()).collect(),
+            dependents: n.dependents.iter().map(|c| c.data().as_ffi()).collect(),
+            dirty: n.state == NodeState::Dirty,
+            has_callback: n.callback.is_some(),
+            has_value: n.value.is_some(),
+            cleanups: n.cleanups.len(),
+            contexts: n.context.len(),
+        })
+        .collect()
+}
+
+/// Raw id behind a signal handle.
+pub fn signal_id<T>(signal: ReadSignal<T>) -> u64 {
+    signal.id.data().as_ffi()
+}
+
+/// Raw id behind a node handle.
+pub fn handle_id(handle: NodeHandle) -> u64 {
+    handle.0.data().as_ffi()
+}
+
+/// Whether the node behind the handle is still alive.
+pub fn handle_is_alive(handle: NodeHandle) -> bool {
+    handle.1.nodes.borrow().get(handle.0).is_some()
+}
